@@ -333,4 +333,408 @@ theorem colLoop_right (same copySkip : Bool) (src B : RB) (sr : Rect) (lo co lin
         simp [h, this]
       · simp [h]
 
+/-! ### The column loop, scanning leftwards (copy to the right within one line) -/
+
+/-- The destination cells finished while scanning line `line` leftwards down to (not including) column `c`. -/
+def doneL (done0 : Int → Int → Bool) (sr : Rect) (L0 co' c : Int) (L C : Int) : Bool :=
+  done0 L C || (decide (L = L0) && decide (c + co' < C) && decide (C < sr.left + sr.cols + co'))
+
+theorem colLoop_left (copySkip : Bool) (src B : RB) (sr : Rect) (co line : Int)
+    (done0 : Int → Int → Bool)
+    (hxl : B.xlLine = 0) (hco : 0 < co + B.xlCol)
+    (hl0 : 0 ≤ line) (hl1 : line < B.lines) (hc0 : 0 ≤ sr.left)
+    (hc1 : sr.left + sr.cols ≤ B.cols) (ht : sr.top ≤ line) (hb : line < sr.top + sr.lines)
+    (hA : ∀ C, done0 line C = false) :
+    ∀ (fuel : Nat) (d : RB) (c : Int), sr.left - 1 ≤ c → c < sr.left + sr.cols →
+      Acc B d (doneL done0 sr line (co + B.xlCol) c) (copyExpect copySkip B B sr 0 (co + B.xlCol)) →
+      (c + 1 = sr.left + sr.cols ∨ c < sr.left ∨ ((d.cells line).get (c + 1)).state ≠ .cont) →
+      c - sr.left + 1 < fuel →
+      Acc B (colLoop Variant.repaired true copySkip src sr 0 co true line fuel d c)
+        (doneL done0 sr line (co + B.xlCol) (sr.left - 1)) (copyExpect copySkip B B sr 0 (co + B.xlCol)) := by
+  intro fuel
+  induction fuel with
+  | zero => intro d c h1 h2 _ _ hf; omega
+  | succ n ih =>
+    intro d c hlo hhi hacc hbnd hf
+    unfold colLoop
+    by_cases hm : more true sr c = true
+    · rw [if_pos hm]
+      have hge : sr.left ≤ c := by unfold more at hm; simpa using hm
+      rw [body_captured Variant.repaired rfl]
+      have hlk := look_facts hacc.wf sr true line c hl0 (by rw [hacc.aux.lines]; exact hl1) (by omega)
+        (by rw [hacc.aux.cols]; omega) hge
+      dsimp only
+      simp only [if_true]
+      unfold RB.cell
+      generalize hlkdef : look d sr true line c = lk at hlk ⊢
+      have f_head := hlk.head
+      have f_off := hlk.offset
+      have f_endgt := hlk.endgt
+      have f_hcol_le := hlk.hcol_le
+      have f_col_le := hlk.col_le
+      have f_left_le := hlk.left_le
+      have f_leftw := hlk.leftw rfl
+      have f_content := hlk.content
+      have f_conts := hlk.conts
+      have f_one := hlk.one
+      have f_hcol0 := hlk.hcol0
+      generalize hcelldef : (d.cells line).get lk.hcol = cell at f_head f_endgt f_content f_one f_conts ⊢
+      -- the run of `c` ends at `c + 1` (or the rectangle does)
+      have hend : lk.hcol + cell.cols = c + 1 ∨ c + 1 = sr.left + sr.cols := by
+        rcases hbnd with h | h | h
+        · exact Or.inr h
+        · omega
+        · by_cases he : lk.hcol + cell.cols = c + 1
+          · exact Or.inl he
+          · exact absurd (f_conts (c + 1) (by omega) (by omega)) h
+      have hcols : pieceCols sr lk (cell.cols - lk.offset) = c + 1 - lk.col := by
+        unfold pieceCols Rect.right
+        by_cases hh : lk.col + (cell.cols - lk.offset) > sr.left + sr.cols
+        · rw [if_pos hh]; omega
+        · rw [if_neg hh]; omega
+      rw [hcols]
+      have hone : (cell.state = .line ∨ cell.state = .char) → c + 1 - lk.col = 1 := by
+        intro hk; have := f_one hk; omega
+      have hds := copyPiece_spec hacc.wf copySkip cell lk.offset (c + 1 - lk.col) (line + 0) (lk.col + co) f_head hone
+      rw [hacc.aux.xlLine, hacc.aux.xlCol, hacc.aux.pen, hxl] at hds
+      have hL : line + 0 + 0 = line := by omega
+      have hC : lk.col + co + B.xlCol = lk.col + (co + B.xlCol) := by omega
+      rw [hL, hC] at hds
+      have hstep := acc_step hacc hds
+        (by
+          intro C h1 h2
+          unfold doneL
+          rw [hA C]
+          have : ¬ c + (co + B.xlCol) < C := by omega
+          simp [this])
+        (by
+          intro C h1 h2 hw
+          rw [copyExpect_eq]
+          have hmem : sr.memb (line - 0) (C - (co + B.xlCol)) = true := by
+            rw [memb_iff]; omega
+          rw [hmem, hw]
+          simp only [Bool.and_self, if_true]
+          have e1 : line - 0 = line := by omega
+          rw [e1]
+          have hj0 : 0 ≤ C - (lk.col + (co + B.xlCol)) := by omega
+          have hsc := f_content (C - (lk.col + (co + B.xlCol))) hj0 (by omega)
+          have e2 : lk.col + (C - (lk.col + (co + B.xlCol))) = C - (co + B.xlCol) := by omega
+          rw [e2] at hsc
+          rw [← hsc]
+          congr 1
+          rw [hacc.content]
+          have hd : doneL done0 sr line (co + B.xlCol) c line (C - (co + B.xlCol)) = false := by
+            unfold doneL
+            rw [hA]
+            have : ¬ c + (co + B.xlCol) < C - (co + B.xlCol) := by omega
+            simp [this]
+          rw [hd]; simp)
+      have hnext := ih _ (lk.col - 1) (by omega) (by omega)
+        (hstep.done_congr (by
+          intro L C
+          unfold doneL
+          by_cases hLL : L = line
+          · by_cases h2 : C < sr.left + sr.cols + (co + B.xlCol)
+            · by_cases h3 : c + (co + B.xlCol) < C
+              · have : lk.col - 1 + (co + B.xlCol) < C := by omega
+                simp [hLL, h2, h3, this]
+              · by_cases h4 : lk.col + (co + B.xlCol) ≤ C
+                · have : lk.col - 1 + (co + B.xlCol) < C := by omega
+                  have h5 : C < lk.col + (co + B.xlCol) + (c + 1 - lk.col) := by omega
+                  simp [hLL, h2, h3, h4, h5, this]
+                · have : ¬ lk.col - 1 + (co + B.xlCol) < C := by omega
+                  simp [hLL, h2, h3, h4, this]
+            · have : ¬ (lk.col + (co + B.xlCol) ≤ C ∧ C < lk.col + (co + B.xlCol) + (c + 1 - lk.col)) := by omega
+              by_cases h4 : lk.col + (co + B.xlCol) ≤ C
+              · have h5 : ¬ C < lk.col + (co + B.xlCol) + (c + 1 - lk.col) := by omega
+                simp [hLL, h2, h5]
+              · simp [hLL, h2, h4]
+          · simp [hLL]))
+        (by
+          -- the column right of the next scan position is still a run start (or the scan is over)
+          rcases f_leftw with h | h
+          · by_cases hlt : lk.col - 1 < sr.left
+            · exact Or.inr (Or.inl hlt)
+            · refine Or.inr (Or.inr ?_)
+              have e : lk.col - 1 + 1 = lk.hcol := by omega
+              rw [e]
+              apply hds.heads line lk.hcol hl0 (by rw [hacc.aux.lines]; exact hl1) f_hcol0 (by rw [hacc.aux.cols]; omega)
+                (by omega)
+              rw [hcelldef]; exact f_head
+          · exact Or.inr (Or.inl (by omega)))
+        (by omega)
+      exact hnext
+    · have hm' : more true sr c = false := by simpa using hm
+      rw [hm']; simp only [Bool.false_eq_true, if_false]
+      have hlt : c < sr.left := by unfold more at hm'; simpa using hm'
+      have : c = sr.left - 1 := by omega
+      rw [this] at hacc; exact hacc
+
+/-! ### The line loop -/
+
+/-- Equality of two Boolean combinations of linear conditions. -/
+macro "bool_omega" : tactic => `(tactic| (
+  rw [Bool.eq_iff_iff]
+  simp only [Bool.or_eq_true, Bool.and_eq_true, decide_eq_true_eq, Bool.false_eq_true, false_or, or_false]
+  omega))
+
+/-- The destination cells of the source lines `[a, b)`. -/
+def doneBand (sr : Rect) (lo' co' a b : Int) (L C : Int) : Bool :=
+  decide (a ≤ L - lo') && decide (L - lo' < b) && decide (sr.left + co' ≤ C) && decide (C < sr.left + sr.cols + co')
+
+theorem colFuel_enough (sr : Rect) (c : Int) (h : sr.left ≤ c) : sr.left + sr.cols - c < (colFuel sr : Nat) := by
+  unfold colFuel; omega
+
+/-- Lines top to bottom, columns left to right (different buffers; or the same buffer when copying upwards, or
+    leftwards within the lines). -/
+theorem lineLoop_down (same copySkip : Bool) (src B : RB) (sr : Rect) (lo co : Int)
+    (hsrc : same = false → WF src)
+    (ht0 : 0 ≤ sr.top) (hb1 : sr.top + sr.lines ≤ (if same then B else src).lines) (hc0 : 0 ≤ sr.left)
+    (hc1 : sr.left + sr.cols ≤ (if same then B else src).cols)
+    (hdir : same = true → (lo + B.xlLine < 0 ∨ (lo + B.xlLine = 0 ∧ co + B.xlCol < 0))) :
+    ∀ (m : Nat) (l : Int) (d : RB), sr.top ≤ l → l + m = sr.top + sr.lines →
+      Acc B d (doneBand sr (lo + B.xlLine) (co + B.xlCol) sr.top l)
+        (copyExpect copySkip B (if same then B else src) sr (lo + B.xlLine) (co + B.xlCol)) →
+      Acc B (lineLoop (fun d line => colLoop Variant.repaired same copySkip src sr lo co false line (colFuel sr) d sr.left)
+              1 m d l)
+        (doneBand sr (lo + B.xlLine) (co + B.xlCol) sr.top (sr.top + sr.lines))
+        (copyExpect copySkip B (if same then B else src) sr (lo + B.xlLine) (co + B.xlCol)) := by
+  intro m
+  induction m with
+  | zero =>
+    intro l d h1 h2 hacc
+    unfold lineLoop
+    have : l = sr.top + sr.lines := by omega
+    rw [this] at hacc; exact hacc
+  | succ m ih =>
+    intro l d h1 h2 hacc
+    unfold lineLoop
+    apply ih (l + 1) _ (by omega) (by omega)
+    have hcol := colLoop_right same copySkip src B sr lo co l
+      (doneBand sr (lo + B.xlLine) (co + B.xlCol) sr.top l) hsrc (by omega) (by omega) hc0 hc1 h1 (by omega)
+      (by
+        intro hs
+        rcases hdir hs with h | h
+        · exact Or.inl (by omega)
+        · exact Or.inr h.2)
+      (by
+        intro C; unfold doneBand
+        rw [Bool.eq_false_iff]
+        simp only [ne_eq, Bool.and_eq_true, decide_eq_true_eq]
+        omega)
+      (by
+        intro hs C _ _; unfold doneBand
+        have := hdir hs
+        rw [Bool.eq_false_iff]
+        simp only [ne_eq, Bool.and_eq_true, decide_eq_true_eq]
+        omega)
+      (colFuel sr) d sr.left (Int.le_refl _)
+      (hacc.done_congr (by
+        intro L C; unfold doneR doneBand
+        bool_omega))
+      (colFuel_enough sr sr.left (Int.le_refl _))
+    apply hcol.done_congr
+    intro L C
+    unfold doneR doneBand
+    bool_omega
+
+/-- Lines bottom to top, columns left to right (the same buffer, copying downwards). -/
+theorem lineLoop_up (copySkip : Bool) (src B : RB) (sr : Rect) (lo co : Int)
+    (ht0 : 0 ≤ sr.top) (hb1 : sr.top + sr.lines ≤ B.lines) (hc0 : 0 ≤ sr.left) (hc1 : sr.left + sr.cols ≤ B.cols)
+    (hdir : 0 < lo + B.xlLine) :
+    ∀ (m : Nat) (l : Int) (d : RB), l < sr.top + sr.lines → l + 1 = sr.top + m →
+      Acc B d (doneBand sr (lo + B.xlLine) (co + B.xlCol) (l + 1) (sr.top + sr.lines))
+        (copyExpect copySkip B B sr (lo + B.xlLine) (co + B.xlCol)) →
+      Acc B (lineLoop (fun d line => colLoop Variant.repaired true copySkip src sr lo co false line (colFuel sr) d sr.left)
+              (-1) m d l)
+        (doneBand sr (lo + B.xlLine) (co + B.xlCol) sr.top (sr.top + sr.lines))
+        (copyExpect copySkip B B sr (lo + B.xlLine) (co + B.xlCol)) := by
+  intro m
+  induction m with
+  | zero =>
+    intro l d h1 h2 hacc
+    unfold lineLoop
+    have : l + 1 = sr.top := by omega
+    rw [this] at hacc; exact hacc
+  | succ m ih =>
+    intro l d h1 h2 hacc
+    unfold lineLoop
+    have e : l + -1 + 1 = l := by omega
+    apply ih (l + -1) _ (by omega) (by omega)
+    rw [e]
+    have hcol := colLoop_right true copySkip src B sr lo co l
+      (doneBand sr (lo + B.xlLine) (co + B.xlCol) (l + 1) (sr.top + sr.lines)) (fun h => by simp at h)
+      (by omega) (by simp only [if_true]; omega) hc0 (by simp only [if_true]; exact hc1) (by omega) h1
+      (fun _ => Or.inl (by omega))
+      (by
+        intro C; unfold doneBand
+        rw [Bool.eq_false_iff]
+        simp only [ne_eq, Bool.and_eq_true, decide_eq_true_eq]
+        omega)
+      (by
+        intro _ C _ _; unfold doneBand
+        rw [Bool.eq_false_iff]
+        simp only [ne_eq, Bool.and_eq_true, decide_eq_true_eq]
+        omega)
+      (colFuel sr) d sr.left (Int.le_refl _)
+      (by
+        simp only [if_true]
+        exact hacc.done_congr (by
+          intro L C; unfold doneR doneBand
+          bool_omega))
+      (colFuel_enough sr sr.left (Int.le_refl _))
+    simp only [if_true] at hcol
+    apply hcol.done_congr
+    intro L C
+    unfold doneR doneBand
+    bool_omega
+
+/-- Lines top to bottom, columns right to left (the same buffer, copying rightwards within the lines). -/
+theorem lineLoop_leftwards (copySkip : Bool) (src B : RB) (sr : Rect) (co : Int)
+    (hxl : B.xlLine = 0) (hco : 0 < co + B.xlCol)
+    (ht0 : 0 ≤ sr.top) (hb1 : sr.top + sr.lines ≤ B.lines) (hc0 : 0 ≤ sr.left) (hc1 : sr.left + sr.cols ≤ B.cols)
+    (hcols : 0 < sr.cols) :
+    ∀ (m : Nat) (l : Int) (d : RB), sr.top ≤ l → l + m = sr.top + sr.lines →
+      Acc B d (doneBand sr 0 (co + B.xlCol) sr.top l) (copyExpect copySkip B B sr 0 (co + B.xlCol)) →
+      Acc B (lineLoop (fun d line => colLoop Variant.repaired true copySkip src sr 0 co true line (colFuel sr) d (sr.right - 1))
+              1 m d l)
+        (doneBand sr 0 (co + B.xlCol) sr.top (sr.top + sr.lines)) (copyExpect copySkip B B sr 0 (co + B.xlCol)) := by
+  intro m
+  induction m with
+  | zero =>
+    intro l d h1 h2 hacc
+    unfold lineLoop
+    have : l = sr.top + sr.lines := by omega
+    rw [this] at hacc; exact hacc
+  | succ m ih =>
+    intro l d h1 h2 hacc
+    unfold lineLoop
+    apply ih (l + 1) _ (by omega) (by omega)
+    have hr : sr.right - 1 = sr.left + sr.cols - 1 := rfl
+    rw [hr]
+    have hcol := colLoop_left copySkip src B sr co l (doneBand sr 0 (co + B.xlCol) sr.top l) hxl hco
+      (by omega) (by omega) hc0 hc1 h1 (by omega)
+      (by
+        intro C; unfold doneBand
+        rw [Bool.eq_false_iff]
+        simp only [ne_eq, Bool.and_eq_true, decide_eq_true_eq]
+        omega)
+      (colFuel sr) d (sr.left + sr.cols - 1) (by omega) (by omega)
+      (hacc.done_congr (by
+        intro L C; unfold doneL doneBand
+        bool_omega))
+      (Or.inl (by omega))
+      (by unfold colFuel; omega)
+    apply hcol.done_congr
+    intro L C
+    unfold doneL doneBand
+    bool_omega
+
+/-- After all lines: every cell shows what the specification says. -/
+theorem acc_final {B d S0 : RB} {copySkip : Bool} {sr : Rect} {lo co : Int}
+    (h : Acc B d (doneBand sr lo co sr.top (sr.top + sr.lines)) (copyExpect copySkip B S0 sr lo co)) (L C : Int) :
+    absContent d L C = copyExpect copySkip B S0 sr lo co L C := by
+  rw [h.content L C]
+  by_cases hc : doneBand sr lo co sr.top (sr.top + sr.lines) L C = true ∧ writable B L C = true
+  · rw [if_pos hc]
+  · rw [if_neg hc, copyExpect_eq]
+    have : ¬ ((sr.memb (L - lo) (C - co) && writable B L C) = true) := by
+      intro hh
+      apply hc
+      rw [Bool.and_eq_true, memb_iff] at hh
+      refine ⟨?_, hh.2⟩
+      unfold doneBand
+      simp only [Bool.and_eq_true, decide_eq_true_eq]
+      omega
+    rw [if_neg this]
+
+theorem acc_empty {B : RB} (hwf : WF B) (E : Int → Int → Content) (sr : Rect) (lo co a : Int) :
+    Acc B B (doneBand sr lo co a a) E :=
+  (acc_init hwf E).done_congr (by
+    intro L C; unfold doneBand
+    symm; rw [Bool.eq_false_iff]
+    simp only [ne_eq, Bool.and_eq_true, decide_eq_true_eq]
+    omega)
+
+/-! ### `copyrect` -/
+
+/-- Within one buffer, no translation in force, source rectangle inside the buffer, a genuine displacement. -/
+theorem copyrect_same_acc (copySkip : Bool) (B : RB) (dr sr : Rect) (hwf : WF B)
+    (hxl : B.xlLine = 0) (hxc : B.xlCol = 0)
+    (ht0 : 0 ≤ sr.top) (hb1 : sr.top + sr.lines ≤ B.lines) (hc0 : 0 ≤ sr.left) (hc1 : sr.left + sr.cols ≤ B.cols)
+    (hlines : 0 < sr.lines) (hcols : 0 < sr.cols) (hmove : ¬ (dr.top - sr.top = 0 ∧ dr.left - sr.left = 0)) :
+    Acc B (copyrect Variant.repaired true copySkip B B dr sr)
+      (doneBand sr (dr.top - sr.top) (dr.left - sr.left) sr.top (sr.top + sr.lines))
+      (copyExpect copySkip B B sr (dr.top - sr.top) (dr.left - sr.left)) := by
+  unfold copyrect
+  have h0 : ¬ (sr.lines = 0 ∨ sr.cols = 0) := by omega
+  rw [if_neg h0]
+  dsimp only
+  have h1 : ¬ (true = true ∧ dr.top - sr.top = 0 ∧ dr.left - sr.left = 0) := fun h => hmove h.2
+  rw [if_neg h1]
+  have hn : (sr.lines.toNat : Int) = sr.lines := by omega
+  have elo : dr.top - sr.top + B.xlLine = dr.top - sr.top := by omega
+  have eco : dr.left - sr.left + B.xlCol = dr.left - sr.left := by omega
+  by_cases hup : dr.top - sr.top > 0
+  · -- copying downwards: bottom line first
+    have hu : (true && decide (dr.top - sr.top > 0)) = true := by rw [Bool.true_and, decide_eq_true_eq]; exact hup
+    have hl : (true && decide (dr.top - sr.top = 0) && decide (dr.left - sr.left > 0)) = false := by
+      have : ¬ dr.top - sr.top = 0 := by omega
+      rw [Bool.true_and, Bool.and_eq_false_iff, decide_eq_false_iff_not]; exact Or.inl this
+    simp only [hu, hl, if_true, Bool.false_eq_true, if_false]
+    have := lineLoop_up copySkip B B sr (dr.top - sr.top) (dr.left - sr.left) ht0 hb1 hc0 hc1 (by omega)
+      sr.lines.toNat (sr.bottom - 1) B (by unfold Rect.bottom; omega) (by unfold Rect.bottom; omega)
+      (by
+        have e : sr.bottom - 1 + 1 = sr.top + sr.lines := by unfold Rect.bottom; omega
+        rw [e]; exact acc_empty hwf _ sr _ _ _)
+    rw [elo, eco] at this
+    exact this
+  · have hu : (true && decide (dr.top - sr.top > 0)) = false := by rw [Bool.true_and, decide_eq_false_iff_not]; exact hup
+    by_cases hlw : dr.top - sr.top = 0 ∧ dr.left - sr.left > 0
+    · -- copying rightwards within the lines: rightmost column first
+      have hl : (true && decide (dr.top - sr.top = 0) && decide (dr.left - sr.left > 0)) = true := by
+        rw [Bool.true_and, Bool.and_eq_true, decide_eq_true_eq, decide_eq_true_eq]; exact hlw
+      simp only [hu, hl, if_true, Bool.false_eq_true, if_false]
+      have := lineLoop_leftwards copySkip B B sr (dr.left - sr.left) hxl (by omega) ht0 hb1 hc0 hc1 hcols
+        sr.lines.toNat sr.top B (Int.le_refl _) (by omega) (by rw [eco]; exact acc_empty hwf _ sr _ _ _)
+      rw [eco] at this
+      rw [hlw.1]
+      exact this
+    · have hl : (true && decide (dr.top - sr.top = 0) && decide (dr.left - sr.left > 0)) = false := by
+        rw [Bool.true_and, Bool.and_eq_false_iff, decide_eq_false_iff_not, decide_eq_false_iff_not]
+        by_cases h : dr.top - sr.top = 0
+        · exact Or.inr (fun hh => hlw ⟨h, hh⟩)
+        · exact Or.inl h
+      simp only [hu, hl, if_true, Bool.false_eq_true, if_false]
+      have := lineLoop_down true copySkip B B sr (dr.top - sr.top) (dr.left - sr.left) (fun h => by simp at h)
+        ht0 (by simp only [if_true]; exact hb1) hc0 (by simp only [if_true]; exact hc1)
+        (by intro _; rw [elo, eco]; omega)
+        sr.lines.toNat sr.top B (Int.le_refl _) (by omega)
+        (by simp only [if_true]; exact acc_empty hwf _ sr _ _ _)
+      simp only [if_true] at this
+      rw [elo, eco] at this
+      exact this
+
+/-- Between two different buffers (`blit`): any translation on the destination. -/
+theorem copyrect_other_acc (copySkip : Bool) (dst src : RB) (dr sr : Rect) (hwf : WF dst) (hsrc : WF src)
+    (ht0 : 0 ≤ sr.top) (hb1 : sr.top + sr.lines ≤ src.lines) (hc0 : 0 ≤ sr.left) (hc1 : sr.left + sr.cols ≤ src.cols)
+    (hlines : 0 < sr.lines) (hcols : 0 < sr.cols) :
+    Acc dst (copyrect Variant.repaired false copySkip dst src dr sr)
+      (doneBand sr (dr.top - sr.top + dst.xlLine) (dr.left - sr.left + dst.xlCol) sr.top (sr.top + sr.lines))
+      (copyExpect copySkip dst src sr (dr.top - sr.top + dst.xlLine) (dr.left - sr.left + dst.xlCol)) := by
+  unfold copyrect
+  have h0 : ¬ (sr.lines = 0 ∨ sr.cols = 0) := by omega
+  rw [if_neg h0]
+  dsimp only
+  have h1 : ¬ (false = true ∧ dr.top - sr.top = 0 ∧ dr.left - sr.left = 0) := fun h => by simp at h
+  rw [if_neg h1]
+  simp only [Bool.false_and, Bool.false_eq_true, if_false]
+  have := lineLoop_down false copySkip src dst sr (dr.top - sr.top) (dr.left - sr.left) (fun _ => hsrc)
+    ht0 (by simp only [Bool.false_eq_true, if_false]; exact hb1) hc0 (by simp only [Bool.false_eq_true, if_false]; exact hc1)
+    (fun h => by simp at h)
+    sr.lines.toNat sr.top dst (Int.le_refl _) (by omega)
+    (by simp only [Bool.false_eq_true, if_false]; exact acc_empty hwf _ sr _ _ _)
+  simp only [Bool.false_eq_true, if_false] at this
+  exact this
+
 end Tickit.RBCopy
